@@ -58,7 +58,7 @@ impl ReadWithPos for SliceWithPos<'_> {
         let padding = crate::pad_align_to(self.pos, T::max_size_of());
         self.skip(padding);
         // Check that the ptr is indeed aligned
-        if self.data.as_ptr() as usize % T::max_size_of() != 0 {
+        if T::max_size_of() != 0 && self.data.as_ptr() as usize % T::max_size_of() != 0 {
             Err(Error::AlignmentError)
         } else {
             Ok(())
